@@ -588,6 +588,8 @@ def _last_chars(ctx, fi: FuncInfo, e: ast.expr, depth=0) -> Optional[set]:
         return out
     if isinstance(e, ast.Name):
         defs = assigned_names(fi.node).get(e.id, [])
+        if defs and all(isinstance(d, ast.comprehension) for d in defs):
+            return set(DIGITS) | set("fn") if _numeric_name(fi, e.id) else None
         if not defs:
             return None
         out = set()
@@ -621,6 +623,23 @@ def _last_chars(ctx, fi: FuncInfo, e: ast.expr, depth=0) -> Optional[set]:
     if isinstance(e, ast.Call) and isinstance(e.func, ast.Name) and e.func.id in ("int", "len", "abs", "float", "round"):
         return set(DIGITS) | set("fn")    # inf / nan
     if isinstance(e, ast.NamedExpr):
+        return _last_chars(ctx, fi, e.value, depth + 1)
+    if isinstance(e, ast.Call):
+        cs = ctx.cg.resolve_call(fi, e, ctx.cg.local_types(fi), set(params_of(fi.node)))
+        if cs.kind == "tucan":
+            out = set()
+            rets = [n.value for n in own_walk(cs.target.node) if isinstance(n, ast.Return) and n.value is not None]
+            for r in rets:
+                s_ = _last_chars(ctx, cs.target, r, depth + 1)
+                if s_ is None:
+                    return None
+                out |= s_
+            return out or None
+        # sep.join(f"...{value}" for ...): last character of the last piece, or empty
+        if isinstance(e.func, ast.Attribute) and e.func.attr == "join" and e.args and isinstance(e.args[0], (ast.GeneratorExp, ast.ListComp)):
+            s_ = _last_chars(ctx, fi, e.args[0].elt, depth + 1)
+            return None if s_ is None else s_ | {""}
+    if isinstance(e, ast.FormattedValue):
         return _last_chars(ctx, fi, e.value, depth + 1)
     return None
 
